@@ -4,5 +4,10 @@ namespace sim {
 void base_knobs(Rng &r, Plan &p, bool timing_sensitive);
 std::string rand_text(Rng &r, size_t maxlen);
 Json oracle_list(std::initializer_list<const char *> l);
+// legal short transfers: write() (or read()) of the named program accepts only a few of the bytes offered, a few times per run
+inline void add_short_io(Rng &r, Plan &p, const std::string &actor, double prob, bool reads = false) {
+  if (!r.chance(prob)) return; int nf = (int)r.range(1, 3);
+  for (int q = 0; q < nf; q++) { Fault f; f.actor = actor; f.call = reads && r.chance(0.5) ? C_READ : C_WRITE; f.nth = (int)r.range(1, 15); f.kind = "short"; f.arg = r.pick(std::vector<int64_t>{1, 2, 10, 100, 300, 500, 511, 513}); p.faults.push_back(f); }
+}
 std::vector<std::string> q_real(); std::vector<std::string> q_stubs(); std::vector<std::string> q_assume();
 }
